@@ -310,3 +310,160 @@ def run(ctx):
                             'keys as DataValues, so `t1.a INT = t2.c BIGINT` finds no partner for equal numbers while the nested-loop join '
                             '(the `=` kernel) does - the result depends on which join the optimizer picks')
     ctx.floor(R8, n_keys, 8, 'key lists handed to DataValue-keyed join executors')
+    outer_sides_are_read(ctx, prog)
+    agg_combinators_cover_the_kernels(ctx, prog)
+
+
+def outer_sides_are_read(ctx, prog):
+    """C11-R9: whichever join type keeps the rows of a side reads that side, whatever the other side holds"""
+    from tmpl import local_defs
+    from mir import pl_fields
+    R9 = 'C11-R9'
+    ctx.rule(R9, 'a RIGHT or FULL outer join returns every right row, a LEFT or FULL outer join every left row, also when the other input is '
+                 'empty. The hash and merge join executors are generic over the join type (`const T: JoinType`); with every test `T == <type>` '
+                 'decided for a concrete T, no path from the entry to a successful end of the stream avoids polling the stream of a side that T '
+                 'preserves (a fast path "the build side is empty, nothing can match" must exempt FULL as well as RIGHT)')
+    KEEP = {'left': ('LeftOuter', 'FullOuter'), 'right': ('RightOuter', 'FullOuter')}
+    n = 0
+    for name in ('executor::hash_join::HashJoinExecutor::<T>::execute::{closure#0}', 'executor::merge_join::MergeJoinExecutor::<T>::execute::{closure#0}'):
+        b = prog.body(name)
+        if not ctx.anchor(R9, name, b is not None):
+            continue
+        ctx.functions_analysed.add(b.name)
+        prom = b.rec.get('promoted') or []
+
+        def const_of(op):
+            """'T' for the generic parameter, a variant name for a JoinType constant"""
+            if op['k'] == 'const':
+                m = re.match(r'promoted\[(\d+)\]', str(op.get('v', '')))
+                if m and int(m.group(1)) < len(prom):
+                    for st in prom[int(m.group(1))]:
+                        rv = st.get('rv', {})
+                        if rv.get('rv') == 'agg' and rv.get('adt', '').endswith('JoinType'):
+                            return rv['variant']
+                        if rv.get('rv') == 'use' and rv['op'].get('k') == 'const' and str(rv['op'].get('v')) == 'T':
+                            return 'T'
+                return None
+            for _, kind, p_ in local_defs(b, op['pl']['l']):
+                if kind == 'assign':
+                    if p_.get('rv') == 'ref':
+                        for __, k2, p2 in local_defs(b, p_['pl']['l']):
+                            if k2 == 'assign' and p2.get('rv') == 'use':
+                                r = const_of(p2['op'])
+                                if r:
+                                    return r
+                    if p_.get('rv') == 'use':
+                        r = const_of(p_['op'])
+                        if r:
+                            return r
+            return None
+        # switches decided by T
+        decided = {}
+        for c in b.calls:
+            if re.search(r'JoinType as std::cmp::PartialEq>::(eq|ne)$', c.res or '') and len(c.args) == 2:
+                vals = [const_of(a) for a in c.args]
+                if 'T' in vals and any(v not in (None, 'T') for v in vals):
+                    variant = next(v for v in vals if v not in (None, 'T'))
+                    nxt = b.blocks[c.bb]['term'].get('t')
+                    if nxt is not None and b.blocks[nxt]['term']['k'] == 'switch' and not b.blocks[nxt]['stmts']:
+                        decided[nxt] = (variant, (c.res or '').endswith('::eq'))
+        polls = {}
+        for c in b.calls:
+            if re.search(r'Stream::poll_next$|StreamExt::(next|try_next)$|TryStreamExt::try_next$', c.fn or '') and c.args and c.args[0]['k'] != 'const':
+                for x in origin_locals(b, c.args[0]['pl']['l'], depth=12):
+                    for _, kind, p_ in local_defs(b, x):
+                        if kind == 'assign':
+                            for pl in operand_places(p_):
+                                nm = next((v['name'] for v in b.rec['vars'] if v['pl']['l'] == pl['l'] and v['pl']['p'] == pl['p'][:len(v['pl']['p'])] and v['pl']['p']), None)
+                                if nm in ('left', 'right'):
+                                    polls.setdefault(nm, set()).add(c.bb)
+        if not ctx.anchor(R9, f'{name}: polls of the left and right input', set(polls) == {'left', 'right'}):
+            continue
+        if not ctx.anchor(R9, f'{name}: tests of T against a join type', decided):
+            continue
+        ends = [i for i, bl in enumerate(b.blocks) if not bl['cleanup'] and bl['term']['k'] == 'return'] or b.return_blocks()
+        errs = b.error_exit_blocks()
+        for side, types in KEEP.items():
+            for T in types:
+                n += 1
+                # reachability with the T-decided switches pruned
+                seen, todo = set(), [0]
+                while todo:
+                    x = todo.pop()
+                    if x in seen or x in polls[side] or x in errs:
+                        continue
+                    seen.add(x)
+                    t = b.blocks[x]['term']
+                    if x in decided and t['k'] == 'switch':
+                        variant, is_eq = decided[x]
+                        truth = (T == variant) == is_eq
+                        nxt = next((tgt for v, tgt in t['targets'] if (v != '0') == truth), t['otherwise'])
+                        todo.append(nxt)
+                    else:
+                        todo += b.succ(x)
+                leak = [e for e in ends if e in seen and e not in errs]
+                # an end that is only reached through an error exit does not count
+                ctx.ob(R9, f'{b.root}·T={T}·reads-the-{side}-input', not leak,
+                       f'{b.name} with T = {T}: ends of the stream reachable without polling the {side} input: {leak} (tests of T decided: {len(decided)})',
+                       [site(b, e) for e in leak] or [b.loc],
+                       what=f'{b.root.rsplit("::", 2)[-2]} as a {T} join can finish without ever reading its {side} input: when the other input is empty, '
+                            f'the {side} rows - which a {T} join must return padded with NULLs - are dropped')
+    ctx.floor(R9, n, 8, '(executor, preserved side, join type) combinations')
+
+
+def agg_combinators_cover_the_kernels(ctx, prog):
+    """C11-R10: what the chunk kernel of SUM can produce, the row-wise / cross-chunk combinator can add"""
+    import absint
+    from absint import T
+    R10 = 'C11-R10'
+    ctx.rule(R10, 'SUM is computed two ways: a chunk at a time by ArrayImpl::sum (simple aggregate) and value by value through `&DataValue + '
+                  '&DataValue` (hash / sort aggregates; also the simple aggregate when it combines two chunks). Every array type the chunk kernel '
+                  'sums must have a same-type arm in the DataValue addition that does not end in its `invalid operation` panic - otherwise the '
+                  'result of an aggregate depends on which executor ran it and on how many chunks the input had')
+    sb = prog.body('array::ops::<impl array::ArrayImpl>::sum')
+    ab = prog.body('<&types::value::DataValue as std::ops::Add>::add')
+    if not (ctx.anchor(R10, 'ArrayImpl::sum', sb is not None) and ctx.anchor(R10, '<&DataValue as Add>::add', ab is not None)):
+        return
+    ctx.functions_analysed.update([sb.name, ab.name])
+    summed = set()
+    for i, bl in enumerate(sb.blocks):
+        t = bl['term']
+        if t['k'] == 'switch' and (t.get('adt') or '').endswith('array::ArrayImpl') and not bl['cleanup']:
+            for v, tgt in t['targets']:
+                if not sb.diverges(tgt):
+                    summed.add(t['variants'][str(v)])
+    dorder = absint.variant_order(prog, 'types::value::DataValue')
+    if not ctx.anchor(R10, 'array types summed by the kernel', len(summed) >= 3) or not ctx.anchor(R10, 'variants of DataValue', len(dorder) >= 8):
+        return
+    I = absint.Interp(prog, 'types::value::DataValue', dorder)
+    # only types the planner lets SUM see (its predicate in analyze_type, by the same abstract interpretation as C14-R13)
+    from rules.c14_types import arms as sw_arms, region as sw_region, TYPE_RULES, DT
+    at = prog.body(TYPE_RULES)
+    accepted = None
+    if at is not None and sw_arms(at, 'planner::Expr'):
+        sw = sw_arms(at, 'planner::Expr')
+        if 'Sum' in sw[1]:
+            reg = sw_region(at, sw[0], sw[1], 'Sum')
+            cls = [st['rv']['def'] for bb, st in at.stmts() if bb in reg and st['s'] == 'assign' and st['rv'].get('rv') == 'agg'
+                   and st['rv'].get('kind') == 'closure' and not st['rv']['def'].endswith('{closure#0}')]
+            if cls:
+                TI = absint.Interp(prog, DT, absint.variant_order(prog, DT))
+                accepted = set()
+                for v in absint.variant_order(prog, DT):
+                    outs = TI.run(prog.body(cls[0]), [absint.UNK, ('ref', T(v))])
+                    if any((isinstance(o, tuple) and o[0] == 'opt' and o[1] is True) or o is True for o in outs):
+                        accepted.add(v)
+    if not ctx.anchor(R10, 'type rule of Sum in analyze_type', accepted is not None):
+        return
+    for v in sorted(summed):
+        if v not in dorder or v not in accepted:
+            continue
+        try:
+            outs = I.run(ab, [('ref', T(v)), ('ref', T(v))])
+        except absint.Abort:
+            outs = [None]
+        ctx.ob(R10, f'SUM·{v}·kernel-and-combinator', bool(outs),
+               f'ArrayImpl::sum has an arm for {v}; `&{v} + &{v}` on DataValue ' + ('returns' if outs else 'only reaches its panic'), [ab.loc],
+               what=f'SUM over a {v} column: the chunk kernel sums it, the value-wise addition panics (invalid operation: {v}(..) add {v}(..)): '
+                    '`select sum(k) from s` works on one chunk, `select g, sum(k) .. group by g` and the same sum over two chunks fail')
+    ctx.floor(R10, len(summed), 3, 'array types with a SUM kernel')
